@@ -5,6 +5,17 @@ Tie: translator (minersum_weibull closed forms, goodman_haigh) + Float correspon
 callable, retbins), `minersum_weibull` (model fed with scipy's Γ, P, Q values) and `goodman_haigh`.
 Search: additivity, linearity, scf-as-scaling, closed form vs finely discretised Weibull histogram (a measurement of
 the Riemann-sum limit, labelled as such), Goodman–Haigh laws.
+
+Audit additions (input classes inside the quantifier that the first generators did not reach):
+* spelling: histograms / curve parameters / td / scf / thickness as int, float, numpy scalars; lists, tuples, int and float
+  ndarrays, non-contiguous and reversed views, read-only arrays; positional and keyword calls (`spell`, `wspell`, `gh`);
+* boundaries: empty histogram, bins of zero range or zero count, bins next to the transition stress, duration / rate 0,
+  Weibull shapes 0.5 … 5 and scales far below / above the transition, means next to uts, empty cycle table, other stress
+  units (2^±200, 1e±6);
+* histories on ONE curve object / dict / pair of arrays (`history`): other settings between identical calls, rejected calls
+  followed by valid ones, closed form and histogram damage interleaved;
+* references computed independently of qats (`ref_bins`, `ref_weibull`);
+* every exception raised by the implementation becomes a failing clause.
 """
 import math
 
@@ -20,7 +31,16 @@ RULE = ("seeded S-N curves x random histograms (1-40 bins) x scf in [1,3] x thic
         "documented form of the `sn` argument (dict, SNCurve, bound method, lambda, callable object, plain object exposing n(); "
         "thickness passed through th / args / kwds); Weibull (q,h) x curves x thickness below/at/above reference for the closed "
         "form (curve as object and as dict, repeated calls); random cycle tables for Goodman-Haigh; corpus cases first; "
-        "non-trivial = bilinear curve or scf>1 or thickness above reference; distinct by full input")
+        "non-trivial = bilinear curve or scf>1 or thickness above reference; distinct by full input. "
+        "Audit streams: `spell` = integer-valued histograms / curves / td / scf / thickness x container (list, tuple, int / float "
+        "ndarray, column view, reversed view, read-only, list of numpy scalars) x scalar type (int, float, np.float64, np.int64) x "
+        "keyword / positional call, bins of zero range / zero count / next to the transition stress, empty histogram; `history` = "
+        "6-12 calls on one SNCurve / dict / array pair with 2-3 settings recurring (all six forms, closed form interleaved, "
+        "rejected calls, direct queries of the curve in between); `wspell` = closed form with int / numpy-scalar / positional "
+        "arguments, duration or rate 0, shape 0.5-5, scale 0.01-100 x transition stress; `gh` = cycle tables as views of an (n,3) "
+        "rainflow table, tuples, lists, int / read-only / Fortran arrays, uts as int / numpy scalar, means up to 0.999 uts, "
+        "zero ranges, empty table, units 2^+-200 / 1e+-6 / ksi, a second ultimate strength in between; `gh-signal` = "
+        "count_cycles(signal)[:, :2] as documented")
 
 
 class _CapObj(object):
@@ -103,6 +123,655 @@ def check_forms(minersum, sn, kw, sr, cnt, td, scf, th, via, d):
     return bad
 
 
+# ======================================================================================================================
+# audit additions: independent references, spelling, histories
+# ======================================================================================================================
+def _isnum(v):
+    return isinstance(v, (int, float)) and not isinstance(v, bool)
+
+
+def _raised(e):
+    return "raised %s: %s" % (type(e).__name__, e)
+
+
+def ref_tcorr(c, th):
+    """thickness correction of DNV-RP-C203 eq. 2.4.3, computed without qats"""
+    if th is None:
+        return 1.0
+    t = float(th) if float(th) >= float(c["t_ref"]) else float(c["t_ref"])
+    return (t / float(c["t_ref"])) ** float(c["t_exp"])
+
+
+def ref_capacity(c, S):
+    """N(S) of the (bi)linear S-N curve for the effective stress range S, computed without qats (S == 0: no damage)"""
+    if S == 0:
+        return math.inf
+    m1, la1 = float(c["m1"]), float(c["loga1"])
+    try:
+        if c["m2"] is None:
+            return 10 ** (la1 - m1 * math.log10(S))
+        m2, ln = float(c["m2"]), math.log10(c["nswitch"])
+        if S >= 10 ** ((la1 - ln) / m1):
+            return 10 ** (la1 - m1 * math.log10(S))
+        return 10 ** (m2 / m1 * la1 + (1 - m2 / m1) * ln - m2 * math.log10(S))
+    except OverflowError:
+        return math.inf
+
+
+def ref_bins(c, sr, cnt, td, scf, th):
+    tc = ref_tcorr(c, th)
+    return [float(td) * float(k) / ref_capacity(c, float(s) * float(scf) * tc) for s, k in zip(sr, cnt)]
+
+
+def ref_weibull(c, q, h, v0, td, scf, th):
+    """closed form of DNV-RP-C203 eq. F.12-1 from the curve parameters (scipy's gamma functions, nothing from qats)"""
+    from scipy.special import gamma, gammainc, gammaincc
+    q, h, v0 = float(q), float(h), float(v0)
+    tdv = 3600. * 24 * 365 if td is None else float(td)
+    qq = q * float(scf) * ref_tcorr(c, th)
+    m1, la1 = float(c["m1"]), float(c["loga1"])
+    if c["m2"] is None:
+        return float(v0 * tdv * qq ** m1 / 10 ** la1 * gamma(1 + m1 / h))
+    m2, ln = float(c["m2"]), math.log10(c["nswitch"])
+    sw = 10 ** ((la1 - ln) / m1)
+    a2 = 10 ** (m2 / m1 * la1 + (1 - m2 / m1) * ln)
+    x = (sw / qq) ** h
+    return float(v0 * tdv * (qq ** m1 / 10 ** la1 * gammaincc(1 + m1 / h, x) * gamma(1 + m1 / h) +
+                             qq ** m2 / a2 * gammainc(1 + m2 / h, x) * gamma(1 + m2 / h)))
+
+
+def fine_histogram(q, h, v0, tdv, nb=40000):
+    """graded discretisation of the Weibull distribution of stress ranges: edges s = smax*u^3 (u uniform), smax at
+    (s/q)^h = 200, counts from differences of the survival function (accurate in the tail). Measured against the closed
+    form over h in [0.5, 5], q in [0.01, 100] x transition stress, all curve kinds, scf and thickness: relative
+    difference < 5e-7 (tolerance used: 1e-5)."""
+    smax = q * 200.0 ** (1.0 / h)
+    edges = smax * np.linspace(0.0, 1.0, nb + 1) ** 3
+    sf = np.exp(-(edges / q) ** h)
+    return 0.5 * (edges[:-1] + edges[1:]), v0 * tdv * (sf[:-1] - sf[1:])
+
+
+FINE_REL = 1e-5
+
+
+def as_scalar(v, how):
+    if v is None:
+        return None
+    whole = float(v).is_integer()
+    if how == "np.float64":
+        return np.float64(v)
+    if how == "np.int64":
+        return np.int64(v) if whole else np.float64(v)
+    if how == "int":
+        return int(v) if whole else v
+    if how == "float":
+        return float(v)
+    return v
+
+
+CONTAINERS = ("list", "tuple", "ndarray", "int-ndarray", "view-col", "view-rev", "readonly", "np-scalar-list")
+
+
+def as_container(vals, how):
+    """the same numbers in another container. Returns (argument, function returning a snapshot of what the caller owns)"""
+    vals = list(vals)
+    whole = all(float(v).is_integer() for v in vals)
+    if how == "tuple":
+        arg = tuple(vals)
+    elif how == "ndarray":
+        arg = np.array(vals, dtype=float)
+    elif how == "int-ndarray":
+        arg = np.array([int(v) for v in vals], dtype=np.int64) if whole else np.array(vals, dtype=float)
+    elif how == "view-col":
+        base = np.zeros((len(vals), 3))
+        base[:, 1] = vals
+        arg = base[:, 1]
+    elif how == "view-rev":
+        arg = np.array(vals[::-1], dtype=float)[::-1]
+    elif how == "readonly":
+        arg = np.array(vals, dtype=float)
+        arg.setflags(write=False)
+    elif how == "np-scalar-list":
+        arg = [np.int64(v) if (whole and isinstance(v, int)) else np.float64(v) for v in vals]
+    else:
+        arg = list(vals)
+    return arg, (lambda: (type(arg).__name__, str(getattr(arg, "dtype", "")), [repr(x) for x in arg]))
+
+
+def floatcurve(c):
+    """the same curve with every parameter a python float (c05.build spells the parameters as c["num"] says)"""
+    return dict({k: (float(v) if _isnum(v) else v) for k, v in c.items()}, num="float")
+
+
+def eval_spell(inp):
+    """kind 'spell': the same histogram / curve / factors written with other number and container types and passed
+    positionally or by keyword. Returns [(oracle text, expected, observed)]."""
+    from qats.fatigue.sn import minersum
+    bad = []
+    c = inp["curve"]
+    sr, cnt, td, scf, th = inp["srange"], inp["count"], inp["td"], inp["scf"], inp["th"]
+    ref = ref_bins(c, sr, cnt, td, scf, th)
+    try:
+        snf, _ = build(floatcurve(c))
+        d0 = float(minersum([float(x) for x in sr], [float(x) for x in cnt], snf, td=float(td), scf=float(scf),
+                            th=None if th is None else float(th)))
+        sn, kw = build(c)
+        a_s, snap_s = as_container(sr, inp["container"])
+        a_c, snap_c = as_container(cnt, inp["container_count"])
+        before = (snap_s(), snap_c(), dict(kw))
+        curve = dict(kw) if inp["sn_as"] == "dict" else sn
+        kwd = curve if inp["sn_as"] == "dict" else None
+        td_, scf_, th_ = (as_scalar(v, inp["scalar"]) for v in (td, scf, th))
+        res = []
+        for _ in range(2):
+            if inp["call"] == "pos":
+                tot, bins = minersum(a_s, a_c, curve, td_, scf_, th_, True)
+                d1 = float(minersum(a_s, a_c, curve, td_, scf_, th_))
+            else:
+                tot, bins = minersum(a_s, a_c, curve, td=td_, scf=scf_, th=th_, retbins=True)
+                d1 = float(minersum(a_s, a_c, curve, td=td_, scf=scf_, th=th_))
+            res.append((d1, float(tot), [float(b) for b in bins]))
+        after = (snap_s(), snap_c(), dict(kw) if kwd is None else dict(kwd))
+    except Exception as e:      # noqa
+        return [("minersum must not raise for a valid histogram however the numbers are spelled (int / float / numpy scalars, "
+                 "list / tuple / ndarray / view / read-only array, positional / keyword)", "damage %r" % sum(ref), _raised(e))]
+    (d1, tot, bins), (d2, tot2, bins2) = res
+    if not close(d1, sum(ref), 1e-9):
+        bad.append(("damage == sum over bins of td*count/N(s*scf, t) (capacity computed independently of qats)", sum(ref), d1))
+    if len(bins) != len(sr) or not all(close(a, b, 1e-9) for a, b in zip(bins, ref)) or not close(tot, d1, 1e-12) or \
+            not close(float(sum(bins)) if bins else 0.0, d1, 1e-11):
+        bad.append(("damage per bin == td*count/N(s*scf, t) and total == their sum (capacity computed independently of qats)",
+                    ref[:4], bins[:4]))
+    if not close(d1, d0, 1e-12):
+        bad.append(("same damage however the same numbers are spelled (int / float / numpy scalars, list / tuple / ndarray / "
+                    "view, positional / keyword)", d0, d1))
+    if before != after or not (close(d2, d1, 1e-15) and bins2 == bins and close(tot2, tot, 1e-15)):
+        bad.append(("same damage on every call with the same arguments (histogram containers and the curve dict are not modified)",
+                    [d1, before], [d2, after]))
+    return bad
+
+
+def gen_spell(rng):
+    m1 = rng.choice([3, 4, 5, 3.0])
+    bil = rng.random() < 0.7
+    thick = rng.random() < 0.7
+    c = dict(m1=m1, loga1=rng.choice([12, 12.164, 15.117, 11, 13]),
+             m2=rng.choice([5, m1 + 2, m1, 5.0]) if bil else None, nswitch=rng.choice([10 ** 7, 10 ** 6, 2 * 10 ** 6, 1e7]) if bil else None,
+             t_exp=rng.choice([0, 0.2, 0.25, 1, 0.1]) if thick else None, t_ref=rng.choice([25, 32, 25.0]) if thick else None,
+             ctor=rng.choice(["loga1", "a1", "dict"]), num=rng.choice(["int", "int", "float", "np", "npint"]))
+    scf = rng.choice([1, 2, 3, 1.0, 1.5, 1.15])
+    th = rng.choice([None, c["t_ref"], 16, 40, 50, 100, 40.0, 12.5]) if thick else None
+    nb = rng.choice([0, 1, 2, 3, 6, 12])
+    sr = [rng.choice([0, rng.randint(1, 30), rng.randint(1, 400), rng.randint(1, 400)]) for _ in range(nb)]
+    if bil and nb and rng.random() < 0.6:
+        # bins at / next to the transition stress (after scf and thickness correction); exact ties belong to either branch
+        sw = 10 ** ((float(c["loga1"]) - math.log10(c["nswitch"])) / float(c["m1"])) / (float(scf) * ref_tcorr(c, th))
+        for _ in range(rng.choice([1, 2])):
+            sr[rng.randrange(nb)] = sw * (1 + rng.choice([0.0, 2.0 ** -50, -2.0 ** -50, 2.0 ** -20, -2.0 ** -20, 0.125, -0.125]))
+    if nb > 1 and rng.random() < 0.3:
+        sr[rng.randrange(nb)] = sr[rng.randrange(nb)]        # duplicate bin
+    cnt = [rng.choice([0, 1, 2, rng.randint(1, 10 ** 6), 0.5]) for _ in range(nb)]
+    return dict(kind="spell", curve=c, srange=sr, count=cnt, td=rng.choice([1, 2, 3600, 0, 1.0, 31536000, 0.25]), scf=scf, th=th,
+                container=rng.choice(CONTAINERS), container_count=rng.choice(CONTAINERS), sn_as=rng.choice(["SNCurve", "dict"]),
+                scalar=rng.choice(["py", "np.float64", "np.int64", "int", "float"]), call=rng.choice(["kw", "kw", "pos"]))
+
+
+# ---- histories on one curve object -------------------------------------------------------------------------------------
+def eval_history(inp):
+    """kind 'history': a sequence of calls on ONE SNCurve object, ONE parameter dict and ONE pair of float arrays. After
+    every step: damage vs the independent reference, vs the first result for the same setting (whatever form / container was
+    used then), closed form vs fine discretisation; the caller's dict / arrays / kwds must stay as they were.
+    Returns [(oracle text, step index, expected, observed, is_tie)]."""
+    from qats.fatigue.sn import minersum, minersum_weibull
+    bad = []
+    c = inp["curve"]
+    sr, cnt = inp["srange"], inp["count"]
+    try:
+        sn, kw = build(c)
+    except Exception as e:      # noqa
+        return [("a valid S-N curve must be accepted", -1, "SNCurve", _raised(e), False)]
+    kwd = dict(kw)
+    arr_s, arr_c = np.array(sr, dtype=float), np.array(cnt, dtype=float)
+    forms = {"SNCurve": sn, "dict": kwd, "bound method": sn.n, "lambda": (lambda s, t=None: sn.n(s, t=t)),
+             "callable object": _CapCall(sn), "object with n()": _CapObj(sn)}
+    owned = lambda: (dict(kwd), arr_s.tolist(), arr_c.tolist())
+    snap = owned()
+    first = {}
+    for i, st in enumerate(inp["steps"]):
+        op = st["op"]
+        try:
+            if op == "minersum":
+                td, scf, th, form = st["td"], st["scf"], st["th"], st["form"]
+                if form in ("SNCurve", "dict"):
+                    extra = dict(th=th)
+                elif th is None:
+                    extra = {}
+                else:
+                    extra = dict(args=(th,)) if st.get("via") == "args" else dict(kwds=dict(t=th))
+                kwds_before = repr(extra)
+                a_s, a_c = (arr_s, arr_c) if st.get("arrays") else (list(sr), list(cnt))
+                if st.get("retbins"):
+                    d, bins = minersum(a_s, a_c, forms[form], td=td, scf=scf, retbins=True, **extra)
+                    d = float(d)
+                    if len(bins) != len(sr) or not close(float(sum(bins)) if len(sr) else 0.0, d, 1e-11):
+                        bad.append(("damage per bin (retbins) sums to the total", i, d, [float(b) for b in bins][:4], False))
+                else:
+                    d = float(minersum(a_s, a_c, forms[form], td=td, scf=scf, **extra))
+                ref = sum(ref_bins(c, sr, cnt, td, scf, th))
+                if not close(d, ref, 1e-9):
+                    bad.append(("damage == sum over bins of td*count/N(s*scf, t) at every call on the same curve object "
+                                "(capacity computed independently of qats)", i, ref, d, False))
+                key = ("m", td, scf, th)
+                if key in first and not close(d, first[key][0], 1e-12):
+                    bad.append(("identical damage whether the curve is given as parameters, object or function, on every call "
+                                "(step %d gave the curve as %s)" % (first[key][1], first[key][2]), i, first[key][0], d, False))
+                first.setdefault(key, (d, i, form))
+                if repr(extra) != kwds_before:
+                    bad.append(("args / kwds of the caller are not modified", i, kwds_before, repr(extra), False))
+            elif op == "weibull":
+                q, h, v0, td, scf, th = st["q"], st["h"], st["v0"], st["td"], st["scf"], st["th"]
+                d = float(minersum_weibull(q, h, kwd if st.get("as") == "dict" else sn, v0, td=td, scf=scf, th=th))
+                tdv = 3600. * 24 * 365 if td is None else td
+                key = ("w", q, h, v0, td, scf, th)
+                if key in first and not close(d, first[key][0], 1e-12):
+                    bad.append(("closed form: same damage on every call with the same arguments (curve as dict or object)", i,
+                                first[key][0], d, False))
+                first.setdefault(key, (d, i, st.get("as")))
+                mids, counts = fine_histogram(float(q), float(h), float(v0), float(tdv))
+                dh = float(minersum(mids, counts, sn, td=1.0, scf=scf, th=th))
+                if not close(dh, d, FINE_REL):
+                    bad.append(("closed-form Weibull damage == histogram damage of a fine discretisation (40000 graded bins, rel 1e-5), "
+                                "at every call on the same curve object", i, dh, d, False))
+                r = ref_weibull(c, q, h, v0, td, scf, th)
+                if not close(d, r, 1e-9):
+                    bad.append(("closed form vs DNV-RP-C203 F.12-1 evaluated from the curve parameters", i, r, d, True))
+            elif op == "query":
+                # other uses of the same curve object between damage calculations
+                sn.n(np.array(st["s"], dtype=float), t=st["th"])
+                sn.fatigue_strength(st["n"], t=st["th"])
+                if st["th"] is not None:
+                    sn.thickness_correction(st["th"])
+            elif op == "reject":
+                # calls that must be refused (whether they are is not part of this property); what follows must be unaffected
+                try:
+                    if st["what"] == "shape":
+                        minersum(arr_s, np.append(arr_c, 1.0), forms[st["form"]])
+                    elif st["what"] == "th-with-function":
+                        minersum(arr_s, arr_c, sn.n, th=st["th"])
+                    elif st["what"] == "th-without-thickness-parameters":
+                        minersum(arr_s, arr_c, forms[st["form"]], th=st["th"])
+                    else:
+                        minersum_weibull(st["q"], st["h"], forms[st["form"]], 1.0, th=st["th"])
+                except Exception:       # noqa
+                    pass
+        except Exception as e:      # noqa
+            bad.append(("valid calls on one curve object must not raise, whatever was computed before", i, "damage", _raised(e), False))
+        now = owned()
+        if now != snap:
+            bad.append(("the caller's curve dict and histogram arrays are not modified by a damage calculation", i, snap, now, False))
+            snap = now
+    return bad
+
+
+def gen_history(rng):
+    c = gen_curve(rng)
+    thick = c["t_ref"] is not None
+    nb = rng.choice([1, 2, 3, 5, 8])
+    sr = [10 ** rng.uniform(0, 2.7) for _ in range(nb)]
+    cnt = [float(rng.choice([0.5, 1.0, 2.0, rng.randint(1, 10 ** 6)])) for _ in range(nb)]
+    ths = [None] + ([rng.choice([c["t_ref"], 0.5 * c["t_ref"]]), rng.choice([2 * c["t_ref"], 100.0, 1.5 * c["t_ref"]])] if thick else [])
+    settings = []
+    for _ in range(rng.choice([2, 3])):
+        settings.append(dict(td=rng.choice([1.0, 3600.0, 2.0]), scf=rng.choice([1.0, 1.15, 2.0, round(rng.uniform(1, 3), 3)]),
+                             th=rng.choice(ths)))
+    wsettings = []
+    for _ in range(2):
+        wsettings.append(dict(q=10 ** rng.uniform(0.3, 1.8), h=rng.choice([0.8, 1.0, 1.2, round(rng.uniform(0.6, 2.0), 3)]),
+                              v0=rng.choice([0.1, 0.125, 1.0]), td=rng.choice([None, 3600.0, 1.0]), scf=rng.choice([1.0, 1.25, 2.0]),
+                              th=rng.choice(ths)))
+    if rng.random() < 0.5:      # same Weibull parameters, another factor / thickness
+        wsettings[1] = dict(wsettings[0], scf=rng.choice([1.0, 1.5, 3.0]), th=rng.choice(ths))
+    steps = []
+    for _ in range(rng.choice([6, 8, 12])):
+        r = rng.random()
+        if r < 0.55:
+            steps.append(dict(op="minersum", form=rng.choice(FORMS), via=rng.choice(["args", "kwds"]), arrays=rng.random() < 0.5,
+                              retbins=rng.random() < 0.3, **rng.choice(settings)))
+        elif r < 0.8:
+            steps.append(dict(op="weibull", **dict(rng.choice(wsettings), **{"as": rng.choice(["object", "dict"])})))
+        elif r < 0.9:
+            steps.append(dict(op="query", s=[10 ** rng.uniform(0, 2.7) for _ in range(3)], n=10 ** rng.uniform(4, 9), th=rng.choice(ths)))
+        else:
+            what = rng.choice(["shape", "th-with-function"] + ([] if thick else ["th-without-thickness-parameters", "weibull-th-without-thickness-parameters"]))
+            steps.append(dict(op="reject", what=what, form=rng.choice(["SNCurve", "dict"]), th=30.0, q=12.0, h=1.1))
+    return dict(kind="history", curve={k: v for k, v in c.items() if not k.startswith("_")}, srange=sr, count=cnt, steps=steps)
+
+
+# ---- closed form: spelling and boundary values -------------------------------------------------------------------------
+def eval_wspell(inp):
+    """kind 'wspell': closed form with int / numpy-scalar / positional arguments, duration or cycle rate 0, extreme shapes and
+    scales. Returns [(oracle text, expected, observed, is_tie)]."""
+    from qats.fatigue.sn import minersum, minersum_weibull
+    bad = []
+    c = inp["curve"]
+    q, h, v0, td, scf, th = inp["q"], inp["h"], inp["v0"], inp["td"], inp["scf"], inp["th"]
+    tdv = 3600. * 24 * 365 if td is None else td
+    try:
+        snf, _ = build(floatcurve(c))
+        f = lambda v: None if v is None else float(v)
+        d0 = float(minersum_weibull(float(q), float(h), snf, float(v0), td=f(td), scf=float(scf), th=f(th)))
+        sn, kw = build(c)
+        curve = dict(kw) if inp["sn_as"] == "dict" else sn
+        args = [as_scalar(v, inp["scalar"]) for v in (q, h, v0, td, scf, th)]
+        shown = repr(args)
+        if inp["call"] == "pos":
+            d1 = float(minersum_weibull(args[0], args[1], curve, *args[2:]))
+            d2 = float(minersum_weibull(args[0], args[1], curve, *args[2:]))
+        else:
+            d1 = float(minersum_weibull(args[0], args[1], curve, args[2], td=args[3], scf=args[4], th=args[5]))
+            d2 = float(minersum_weibull(q=args[0], h=args[1], sn=curve, v0=args[2], td=args[3], scf=args[4], th=args[5]))
+        mids, counts = fine_histogram(float(q), float(h), float(v0), float(tdv))
+        dh = float(minersum(mids, counts, sn, td=1.0, scf=scf, th=th))
+    except Exception as e:      # noqa
+        return [("minersum_weibull must not raise for valid input however the numbers are spelled (int / float / numpy scalars, "
+                 "positional / keyword)", "damage", _raised(e), False)]
+    if not close(d1, d0, 1e-12):
+        bad.append(("closed form: same damage however the same numbers are spelled (int / float / numpy scalars, positional / keyword)",
+                    d0, d1, False))
+    if not close(d2, d1, 1e-15) or repr(args) != shown or (inp["sn_as"] == "dict" and curve != kw):
+        bad.append(("closed form: same damage on every call with the same arguments (arguments are not modified)", [d1, shown], [d2, repr(args)], False))
+    if float(tdv) == 0 or float(v0) == 0:
+        if d1 != 0:
+            bad.append(("closed form: linear in cycle rate and duration, hence no damage for duration 0 or rate 0", 0.0, d1, False))
+    if not close(dh, d1, FINE_REL):
+        bad.append(("closed-form Weibull damage == histogram damage of a fine discretisation (40000 graded bins, rel 1e-5)", dh, d1, False))
+    r = ref_weibull(c, q, h, v0, td, scf, th)
+    if not close(d1, r, 1e-9):
+        bad.append(("closed form vs DNV-RP-C203 F.12-1 evaluated from the curve parameters", r, d1, True))
+    return bad
+
+
+def gen_wspell(rng):
+    inp = gen_spell(rng)
+    c = inp["curve"]
+    sw = 10 ** ((float(c["loga1"]) - math.log10(c["nswitch"])) / float(c["m1"])) if c["m2"] is not None else 50.0
+    whole = rng.random() < 0.5
+    if whole:
+        q = max(1, int(round(sw * rng.choice([0.1, 0.5, 1, 2, 10]))))
+        h = rng.choice([1, 2, 3, 1.0])
+    else:
+        q = sw * rng.choice([0.01, 0.1, 0.5, 1.0, 2.0, 10.0, 100.0]) * rng.uniform(0.8, 1.25)
+        h = rng.choice([0.5, 0.6, 0.8, 1.0, 1.5, 2.0, 3.0, 5.0, round(rng.uniform(0.5, 5.0), 3)])
+    scalar = inp["scalar"]
+    if (scalar == "np.int64" or c["num"] == "npint") and (float(q) * float(inp["scf"])) ** float(max(c["m1"], c["m2"] or 0)) >= 2.0 ** 62:
+        # numpy integers of fixed width overflow silently in q**m when scale, factor and slope all are integers (scales of
+        # thousands of MPa only; reported as an observation, not as a violation: the documented type of q is float).
+        # Python integers are exact.
+        scalar = "int"
+        c["num"] = "int"
+    return dict(kind="wspell", curve=c, q=q, h=h, v0=rng.choice([1, 0.1, 0.125, 2, 0]), td=rng.choice([None, 0, 1, 3600, 31536000, 2.5]),
+                scf=inp["scf"], th=inp["th"], sn_as=inp["sn_as"], scalar=scalar, call=inp["call"])
+
+
+# ---- Goodman-Haigh: spelling, boundaries, second use ------------------------------------------------------------------
+GH_CONTAINERS = ("ndarray", "view3", "list-of-tuples", "tuple-of-tuples", "list-of-lists", "int-ndarray", "readonly", "fortran",
+                 "np-scalar-rows")
+GH_UNITS = (1000.0, 1e-6, 1e6, 2.0 ** 200, 2.0 ** -200, 0.1450377377, 9.80665)
+
+
+def gh_container(rows, how):
+    whole = all(float(v).is_integer() for r in rows for v in r)
+    n = len(rows)
+    if how == "view3":
+        base = np.zeros((n, 3))
+        base[:, 2] = 0.5
+        if n:
+            base[:, :2] = rows
+        arg = base[:, :2]
+        return arg, lambda: base.tolist()
+    if how == "list-of-tuples":
+        arg = [tuple(r) for r in rows]
+    elif how == "tuple-of-tuples":
+        arg = tuple(tuple(r) for r in rows)
+    elif how == "list-of-lists":
+        arg = [list(r) for r in rows]
+    elif how == "np-scalar-rows":
+        arg = [(np.float64(r), np.float64(m)) for r, m in rows]
+    elif how == "int-ndarray" and whole:
+        arg = np.array([[int(v) for v in r] for r in rows], dtype=np.int64).reshape(n, 2)
+    elif how == "fortran":
+        arg = np.asfortranarray(np.array(rows, dtype=float).reshape(n, 2))
+    else:
+        arg = np.array(rows, dtype=float).reshape(n, 2)
+        if how == "readonly":
+            arg.setflags(write=False)
+    if n == 0 and not isinstance(arg, np.ndarray):
+        arg = np.empty((0, 2))          # an empty table has shape (0, 2) only as an array
+    return arg, (lambda: (str(getattr(arg, "dtype", "")), [[repr(v) for v in r] for r in arg]))
+
+
+def eval_gh(inp):
+    """kind 'gh': the Goodman-Haigh clauses on one cycle table given in some container, with a second ultimate strength used
+    in between, and in other stress units. Returns [(oracle text, expected, observed)]."""
+    from qats.fatigue.corrections import goodman_haigh
+    bad = []
+    rows, uts = [tuple(r) for r in inp["cycles"]], inp["uts"]
+    n = len(rows)
+    exp = [float(r) * float(uts) / (float(uts) - float(m)) for r, m in rows]
+    try:
+        arg, snap = gh_container(rows, inp.get("container", "ndarray"))
+        before = snap()
+        u = as_scalar(uts, inp.get("uts_as", "py"))
+        got = goodman_haigh(arg, u)
+        shape = tuple(np.shape(got))
+        got = [float(v) for v in np.asarray(got, dtype=float).ravel()]
+        other = goodman_haigh(arg, as_scalar(inp["uts2"], inp.get("uts_as", "py"))) if inp.get("uts2") is not None else None
+        again = [float(v) for v in np.asarray(goodman_haigh(arg, u), dtype=float).ravel()]
+        after = snap()
+        scaled = {}
+        for k in inp.get("units", []):
+            a2, _ = gh_container([(float(r) * k, float(m) * k) for r, m in rows], "ndarray" if inp.get("container") == "int-ndarray" else inp.get("container", "ndarray"))
+            scaled[k] = [float(v) for v in np.asarray(goodman_haigh(a2, float(uts) * k), dtype=float).ravel()]
+    except Exception as e:      # noqa
+        return [("goodman_haigh must not raise for a cycle table of shape (n, 2) and uts above the largest mean", exp[:4], _raised(e))]
+    if shape != (n,):
+        bad.append(("one corrected range per cycle", (n,), shape))
+        return bad
+    if not all(close(g, e, 1e-12) for g, e in zip(got, exp)):
+        bad.append(("effective range == range*uts/(uts-mean)", exp[:6], got[:6]))
+    if not all(close(g, float(r), 1e-14) for g, (r, m) in zip(got, rows) if float(m) == 0.0):
+        bad.append(("zero-mean cycles unchanged", [float(r) for r, m in rows][:6], got[:6]))
+    if not all(g > float(r) for g, (r, m) in zip(got, rows) if float(m) > 0 and float(r) > 0):
+        bad.append(("tensile mean stress enlarges the effective range", [float(r) for r, m in rows][:6], got[:6]))
+    if before != after or again != got:
+        bad.append(("effective range == range*uts/(uts-mean) on every call (the input table is not modified, another ultimate "
+                    "strength may be used in between)", [got[:6], before], [again[:6], after]))
+    if other is not None:
+        e2 = [float(r) * float(inp["uts2"]) / (float(inp["uts2"]) - float(m)) for r, m in rows]
+        o2 = [float(v) for v in np.asarray(other, dtype=float).ravel()]
+        if len(o2) != n or not all(close(g, e, 1e-12) for g, e in zip(o2, e2)):
+            bad.append(("effective range == range*uts/(uts-mean) for a second ultimate strength on the same table", e2[:6], o2[:6]))
+    for k, sc in scaled.items():
+        if len(sc) != n or not all(close(a, b * k, 1e-12) for a, b in zip(sc, got)):
+            bad.append(("independent of the stress unit (ranges, means and uts times %r)" % k, [b * k for b in got][:6], sc[:6]))
+    return bad
+
+
+def gen_gh(rng):
+    whole = rng.random() < 0.35
+    n = rng.choice([0, 1, 2, 3, 5, 9])
+    if whole:
+        uts = rng.randint(200, 900)
+        rows = [(rng.choice([0, rng.randint(1, 150)]), rng.choice([0, 0, rng.randint(-150, 150), uts - 1])) for _ in range(n)]
+    else:
+        uts = 10 ** rng.uniform(1.5, 3.2)
+        rows = [(rng.choice([0.0, 10 ** rng.uniform(-1, 2.5), 10 ** rng.uniform(-1, 2.5)]),
+                 rng.choice([0.0, -0.0, rng.uniform(-0.9, 0.9) * uts, 0.999 * uts, -3.0 * uts, uts * 2.0 ** -30])) for _ in range(n)]
+    top = max([float(m) for r, m in rows] + [0.0])
+    uts2 = rng.choice([None, uts * 2, top + 1.0, uts + 0.5])
+    return dict(kind="gh", cycles=[list(r) for r in rows], uts=uts, uts2=uts2, container=rng.choice(GH_CONTAINERS),
+                uts_as=rng.choice(["py", "np.float64", "np.int64", "int", "float"]),
+                units=rng.sample(GH_UNITS, 2))
+
+
+def eval_gh_signal(inp):
+    """kind 'gh-signal': the documented use, goodman_haigh(count_cycles(series)[:, :2], uts).
+    Returns (skipped?, [(oracle text, expected, observed)])"""
+    from qats.fatigue.corrections import goodman_haigh
+    from qats.fatigue.rainflow import count_cycles
+    try:
+        cyc = count_cycles(np.array(inp["signal"], dtype=float))
+    except Exception:       # noqa  (cycle counting is the subject of C02, not of this property)
+        return True, []
+    if cyc.ndim != 2 or cyc.shape[1] != 3 or len(cyc) == 0:
+        return True, []
+    uts = float(np.max(cyc[:, 1])) + inp["margin"]
+    keep = cyc.copy()
+    exp = [float(r) * uts / (uts - float(m)) for r, m, _ in keep]
+    try:
+        got = goodman_haigh(cyc[:, :2], uts)
+        again = goodman_haigh(cyc[:, :2], uts)
+    except Exception as e:      # noqa
+        return False, [("goodman_haigh(count_cycles(series)[:, :2], uts) must not raise for uts above the largest mean", exp[:4], _raised(e))]
+    bad = []
+    if np.shape(got) != (len(keep),) or not all(close(float(g), e, 1e-12) for g, e in zip(got, exp)):
+        bad.append(("effective range == range*uts/(uts-mean) for the first two columns of a rainflow cycle table", exp[:6],
+                    [float(g) for g in np.ravel(got)][:6]))
+    if not np.array_equal(cyc, keep) or not np.array_equal(np.asarray(got), np.asarray(again)):
+        bad.append(("effective range on every call (the rainflow cycle table is not modified)", keep.tolist()[:4], cyc.tolist()[:4]))
+    return False, bad
+
+
+AUDIT_EVAL = dict(spell=eval_spell, history=eval_history, wspell=eval_wspell, gh=eval_gh)
+
+
+def run_audit(chk, corpus):
+    """the audit streams; corpus cases of each kind first"""
+    rng = chk.rng
+    quick = chk.quick
+    spelled = []
+    plan = (("spell", gen_spell, 400 if quick else 5000), ("history", gen_history, 80 if quick else 800),
+            ("wspell", gen_wspell, 120 if quick else 1500), ("gh", gen_gh, 400 if quick else 5000))
+    for kind, gen, n in plan:
+        cases = [dict(c) for c in corpus if c.get("kind") == kind]
+        chk.count("corpus", len(cases))
+        cases += [gen(rng) for _ in range(n)]
+        for inp in cases:
+            inp.pop("note", None)
+            try:
+                res = AUDIT_EVAL[kind](inp)
+            except Exception as e:      # noqa  (anything that escapes the evaluators is reported on this input, never as a crash)
+                res = [("the damage calculation must not raise for valid input", "a result", _raised(e))]
+            chk.count(kind, len(inp["steps"]) if kind == "history" else 1)
+            chk.nontriv(repr(inp))
+            if kind == "spell":
+                spelled.append(inp)
+                chk.dist("spell:%s/%s:%s:%s:%s" % (inp["container"], inp["container_count"], inp["scalar"], inp["call"], inp["sn_as"]))
+                chk.dist("spell-bins:%d" % min(len(inp["srange"]), 3))
+            elif kind == "history":
+                for st in inp["steps"]:
+                    chk.dist("history-step:%s" % (st["op"] + (":" + st["form"] if st["op"] == "minersum" else "")))
+            elif kind == "wspell":
+                chk.dist("wspell:%s:%s:td=%s" % (inp["scalar"], inp["call"], "None" if inp["td"] is None else "0" if inp["td"] == 0 else ">0"))
+            else:
+                chk.dist("gh:%s:uts %s:n=%d" % (inp.get("container", "ndarray"), inp.get("uts_as", "py"), min(len(inp["cycles"]), 3)))
+            for r in res:
+                if kind == "history":
+                    text, step, e_, o_, tie = r
+                    if tie:
+                        chk.disagree("sn.minersum_weibull", dict(inp, step=step), e_, o_)
+                    else:
+                        chk.fail(text, dict(inp, step=step), e_, o_)
+                elif kind == "wspell":
+                    text, e_, o_, tie = r
+                    if tie:
+                        chk.disagree("sn.minersum_weibull", inp, e_, o_)
+                    else:
+                        chk.fail(text, inp, e_, o_)
+                else:
+                    chk.fail(r[0], inp, r[1], r[2])
+    skipped = 0
+    for _ in range(30 if quick else 300):
+        n = rng.choice([8, 15, 40])
+        sig = [float(rng.randint(-60, 120)) for _ in range(n)] if rng.random() < 0.5 else [rng.uniform(-60, 120) for _ in range(n)]
+        inp = dict(kind="gh-signal", signal=sig, margin=rng.choice([1.0, 0.001, 500.0]))
+        try:
+            skip, res = eval_gh_signal(inp)
+        except Exception as e:      # noqa
+            skip, res = False, [("goodman_haigh(count_cycles(series)[:, :2], uts) must not raise", "corrected ranges", _raised(e))]
+        skipped += bool(skip)
+        chk.count("gh-signal")
+        for text, e_, o_ in res:
+            chk.fail(text, inp, e_, o_)
+    if skipped:
+        chk.notes.append("gh-signal: %d signals skipped (count_cycles raised or returned no cycle; subject of C02)" % skipped)
+    return spelled
+
+
+def shared_dict_clauses(minersum, sn, kw, sr, cnt, td, scf, th, d):
+    """the caller's parameter dict and kwds dict are passed twice (not copies of them) and must come back unchanged"""
+    bad = []
+    shared, kwds = dict(kw), (None if th is None else dict(t=th))
+    r1 = float(minersum(sr, cnt, shared, td=td, scf=scf, th=th))
+    r2 = float(minersum(sr, cnt, shared, td=td, scf=scf, th=th))
+    r3 = float(minersum(sr, cnt, sn.n, td=td, scf=scf, kwds=kwds))
+    r4 = float(minersum(sr, cnt, _CapObj(sn), td=td, scf=scf, kwds=kwds))
+    if not (shared == kw and (kwds is None or kwds == dict(t=th))):
+        bad.append(("the caller's parameter dict / kwds dict are not modified by a damage calculation", [kw, None if th is None else dict(t=th)],
+                    [shared, kwds]))
+    if not all(close(r, d, 1e-12) for r in (r1, r2, r3, r4)):
+        bad.append(("identical damage when the same parameter dict / kwds dict is passed again", d, [r1, r2, r3, r4]))
+    return bad
+
+
+def _minersum_oracles(chk, rng, minersum, c, sn, kw, sr, cnt, td, scf, th, inp, d):
+    if len(chk.samples) < 3 and len(sr) <= 3:
+        chk.sample(dict(inp, damage=d))
+    # --- oracles --------------------------------------------------------------------------------------------
+    d_dict = float(minersum(sr, cnt, dict(kw), td=td, scf=scf, th=th))
+    if not close(d_dict, d, 1e-12):
+        chk.fail("curve given as parameters (dict) or object gives identical damage", inp, d, d_dict)
+    if th is None:
+        d_call = float(minersum(sr, cnt, sn.n, td=td, scf=scf))
+        if not close(d_call, d, 1e-12):
+            chk.fail("curve given as function gives identical damage", inp, d, d_call)
+    # every documented form of the curve argument (thickness through th / args / kwds), each with the scf clause
+    via = rng.choice(["args", "kwds"])
+    for text, label, e_, o_ in check_forms(minersum, sn, kw, sr, cnt, td, scf, th, via, d):
+        chk.fail(text, dict(inp, form=label, th_via=via), e_, o_)
+    chk.count("sn.minersum-forms", len(FORMS))
+    chk.dist("forms:scf%s:%s" % (">1" if scf > 1 else "=1", "th=None" if th is None else "th via " + via))
+    dd, bins = minersum(sr, cnt, sn, td=td, scf=scf, th=th, retbins=True)
+    exp_bins = [td * k / float(sn.n(s * scf, t=th)) for s, k in zip(sr, cnt)]
+    if not all(close(float(a), b, 1e-12) for a, b in zip(bins, exp_bins)) or not close(float(sum(bins)), d, 1e-12):
+        chk.fail("damage per bin == td*count/N(s*scf, t) and total == their sum", inp, exp_bins[:3], [float(b) for b in bins[:3]])
+    k = rng.randint(0, len(sr))
+    parts = (float(minersum(sr[:k], cnt[:k], sn, td=td, scf=scf, th=th)) if k else 0.0) + \
+            (float(minersum(sr[k:], cnt[k:], sn, td=td, scf=scf, th=th)) if k < len(sr) else 0.0)
+    if not close(parts, d, 1e-11):
+        chk.fail("additive over any split of the histogram", dict(inp, split=k), d, parts)
+    lin = float(minersum(sr, [3.0 * x for x in cnt], sn, td=2.0 * td, scf=scf, th=th))
+    if not close(lin, 6.0 * d, 1e-11):
+        chk.fail("linear in counts and duration", inp, 6.0 * d, lin)
+    arr_s, arr_c = np.array(sr, dtype=float), np.array(cnt, dtype=float)
+    d_a1 = float(minersum(arr_s, arr_c, sn, td=td, scf=scf, th=th))
+    d_a2 = float(minersum(arr_s, arr_c, sn, td=td, scf=scf, th=th))
+    if not (np.array_equal(arr_s, np.array(sr, dtype=float)) and np.array_equal(arr_c, np.array(cnt, dtype=float)) and
+            close(d_a1, d, 1e-12) and close(d_a2, d, 1e-12)):
+        chk.fail("damage of a histogram given as float arrays equals that of the lists, on every call (inputs are not modified)",
+                 inp, d, [d_a1, d_a2])
+    sc = float(minersum([s * scf for s in sr], cnt, sn, td=td, scf=1.0, th=th))
+    if not close(sc, d, 1e-11):
+        chk.fail("scf equivalent to scaling the stress ranges", inp, d, sc)
+    # audit: capacity computed independently of SNCurve.n (a fault shared by minersum and the curve object would cancel above)
+    ref = ref_bins(c, sr, cnt, td, scf, th)
+    if not all(close(float(a), b, 1e-9) for a, b in zip(bins, ref)) or not close(d, sum(ref), 1e-9):
+        chk.fail("damage per bin == td*count/N(s*scf, t) (capacity computed independently of qats)", inp, ref[:3], [float(b) for b in bins[:3]])
+    # audit: the caller's parameter dict and kwds are reused, not copied, and must come back unchanged
+    for text, e_, o_ in shared_dict_clauses(minersum, sn, kw, sr, cnt, td, scf, th, d):
+        chk.fail(text, inp, e_, o_)
+
+
 def run(chk):
     from qats.fatigue.sn import SNCurve, minersum, minersum_weibull
     from qats.fatigue.corrections import goodman_haigh
@@ -153,48 +822,18 @@ def run(chk):
             d = float(minersum(sr, cnt, sn, td=td, scf=scf, th=th))
         except ValueError:
             d = "err value"
+        except Exception as e:      # noqa
+            d = "err " + type(e).__name__
         if not close(val(o), d, 1e-9):
             chk.disagree("sn.minersum", inp, val(o), d)
         if isinstance(d, str):
+            if th is None or c["t_ref"] is not None:
+                chk.fail("minersum must not raise for a valid histogram", inp, "damage %r" % sum(ref_bins(c, sr, cnt, td, scf, th)), d)
             continue
-        if len(chk.samples) < 3 and len(sr) <= 3:
-            chk.sample(dict(inp, damage=d))
-        # --- oracles --------------------------------------------------------------------------------------------
-        d_dict = float(minersum(sr, cnt, dict(kw), td=td, scf=scf, th=th))
-        if not close(d_dict, d, 1e-12):
-            chk.fail("curve given as parameters (dict) or object gives identical damage", inp, d, d_dict)
-        if th is None:
-            d_call = float(minersum(sr, cnt, sn.n, td=td, scf=scf))
-            if not close(d_call, d, 1e-12):
-                chk.fail("curve given as function gives identical damage", inp, d, d_call)
-        # every documented form of the curve argument (thickness through th / args / kwds), each with the scf clause
-        via = rng.choice(["args", "kwds"])
-        for text, label, e_, o_ in check_forms(minersum, sn, kw, sr, cnt, td, scf, th, via, d):
-            chk.fail(text, dict(inp, form=label, th_via=via), e_, o_)
-        chk.count("sn.minersum-forms", len(FORMS))
-        chk.dist("forms:scf%s:%s" % (">1" if scf > 1 else "=1", "th=None" if th is None else "th via " + via))
-        dd, bins = minersum(sr, cnt, sn, td=td, scf=scf, th=th, retbins=True)
-        exp_bins = [td * k / float(sn.n(s * scf, t=th)) for s, k in zip(sr, cnt)]
-        if not all(close(float(a), b, 1e-12) for a, b in zip(bins, exp_bins)) or not close(float(sum(bins)), d, 1e-12):
-            chk.fail("damage per bin == td*count/N(s*scf, t) and total == their sum", inp, exp_bins[:3], [float(b) for b in bins[:3]])
-        k = rng.randint(0, len(sr))
-        parts = (float(minersum(sr[:k], cnt[:k], sn, td=td, scf=scf, th=th)) if k else 0.0) + \
-                (float(minersum(sr[k:], cnt[k:], sn, td=td, scf=scf, th=th)) if k < len(sr) else 0.0)
-        if not close(parts, d, 1e-11):
-            chk.fail("additive over any split of the histogram", dict(inp, split=k), d, parts)
-        lin = float(minersum(sr, [3.0 * x for x in cnt], sn, td=2.0 * td, scf=scf, th=th))
-        if not close(lin, 6.0 * d, 1e-11):
-            chk.fail("linear in counts and duration", inp, 6.0 * d, lin)
-        arr_s, arr_c = np.array(sr, dtype=float), np.array(cnt, dtype=float)
-        d_a1 = float(minersum(arr_s, arr_c, sn, td=td, scf=scf, th=th))
-        d_a2 = float(minersum(arr_s, arr_c, sn, td=td, scf=scf, th=th))
-        if not (np.array_equal(arr_s, np.array(sr, dtype=float)) and np.array_equal(arr_c, np.array(cnt, dtype=float)) and
-                close(d_a1, d, 1e-12) and close(d_a2, d, 1e-12)):
-            chk.fail("damage of a histogram given as float arrays equals that of the lists, on every call (inputs are not modified)",
-                     inp, d, [d_a1, d_a2])
-        sc = float(minersum([s * scf for s in sr], cnt, sn, td=td, scf=1.0, th=th))
-        if not close(sc, d, 1e-11):
-            chk.fail("scf equivalent to scaling the stress ranges", inp, d, sc)
+        try:
+            _minersum_oracles(chk, rng, minersum, c, sn, kw, sr, cnt, td, scf, th, inp, d)
+        except Exception as e:      # noqa
+            chk.fail("minersum must not raise for a valid histogram (additivity / linearity / scf / form clauses)", inp, d, _raised(e))
     # ---- closed form -----------------------------------------------------------------------------------------------
     M = 40 if chk.quick else 400
     glines, gmeta = [], []
@@ -254,7 +893,10 @@ def run(chk):
         cdf = 1 - np.exp(-(edges / q) ** h)
         counts = v0 * tdv * np.diff(cdf)
         mids = 0.5 * (edges[:-1] + edges[1:])
-        dh = float(minersum(mids, counts, sn, td=1.0, scf=scf, th=th))
+        try:
+            dh = float(minersum(mids, counts, sn, td=1.0, scf=scf, th=th))
+        except Exception as e:      # noqa
+            dh = _raised(e)
         if not close(dh, d, 2e-3):
             chk.fail("closed-form Weibull damage == histogram damage of a fine discretisation (40000 bins, rel 2e-3)", inp, dh, d)
     # ---- Goodman-Haigh -----------------------------------------------------------------------------------------------
@@ -271,8 +913,16 @@ def run(chk):
     i = 0
     for uts, rows in gm:
         arr = np.array(rows, dtype=float)
-        got = goodman_haigh(arr, uts)
-        again = goodman_haigh(arr, uts)          # same (float) array passed again, as with count_cycles(...)[:, :2]
+        try:
+            got = goodman_haigh(arr, uts)
+            again = goodman_haigh(arr, uts)          # same (float) array passed again, as with count_cycles(...)[:, :2]
+            got2 = goodman_haigh(np.array([(r * 1000.0, m * 1000.0) for r, m in rows]), uts * 1000.0)
+            float(got[len(rows) - 1]), float(got2[len(rows) - 1])
+        except Exception as e:      # noqa
+            chk.fail("goodman_haigh must not raise for a cycle table of shape (n, 2) and uts above the largest mean",
+                     dict(cycles=rows, uts=uts), [r * uts / (uts - m) for r, m in rows], _raised(e))
+            i += len(rows)
+            continue
         if not (np.array_equal(arr, np.array(rows, dtype=float)) and np.array_equal(got, again)):
             chk.fail("effective range == range*uts/(uts-mean) on every call (the input table is not modified)",
                      dict(cycles=rows, uts=uts), [float(v) for v in got], [float(v) for v in again])
@@ -294,7 +944,6 @@ def run(chk):
             if m != 0.0:
                 chk.nontriv((r, m, uts))
         k = 1000.0
-        got2 = goodman_haigh(np.array([(r * k, m * k) for r, m in rows]), uts * k)
         if not all(close(float(a), float(b) * k, 1e-12) for a, b in zip(got2, got)):
             chk.fail("independent of the stress unit", inp, [float(b) * k for b in got], [float(a) for a in got2])
         if got.shape != (len(rows),):
@@ -303,25 +952,78 @@ def run(chk):
     for _ in range(30 if chk.quick else 300):
         uts = float(rng.randint(200, 900))
         rows = [(rng.randint(1, 150), rng.choice([0, rng.randint(-100, 150)])) for _ in range(rng.choice([1, 2, 4]))]
-        gi = goodman_haigh(np.array(rows), int(uts))
-        gf = goodman_haigh(np.array(rows, dtype=float), uts)
-        gl = goodman_haigh([list(r) for r in rows], uts)
         chk.count("gh-int")
         exp = [r * uts / (uts - m) for r, m in rows]
-        if not (np.allclose(np.asarray(gi, dtype=float), exp, rtol=1e-12) and np.allclose(gf, exp, rtol=1e-12) and np.allclose(np.asarray(gl, dtype=float), exp, rtol=1e-12)):
+        try:
+            gi = goodman_haigh(np.array(rows), int(uts))
+            gf = goodman_haigh(np.array(rows, dtype=float), uts)
+            gl = goodman_haigh([list(r) for r in rows], uts)
+        except Exception as e:      # noqa
+            chk.fail("goodman_haigh must not raise for an integer-valued cycle table", dict(cycles=rows, uts=uts), exp, _raised(e))
+            continue
+        try:
+            same = (np.allclose(np.asarray(gi, dtype=float), exp, rtol=1e-12) and np.allclose(gf, exp, rtol=1e-12) and
+                    np.allclose(np.asarray(gl, dtype=float), exp, rtol=1e-12))
+        except Exception:       # noqa  (shapes that do not match)
+            same = False
+        if not same:
             chk.fail("effective range == range*uts/(uts-mean) also for integer-valued cycle tables", dict(cycles=rows, uts=uts), exp,
                      [np.asarray(gi, dtype=float).tolist(), np.asarray(gf).tolist()])
     chk.sample(dict(cycles=gm[0][1], uts=gm[0][0]))
+    # ---- audit streams (spelling / boundaries / histories), with the Lean model on the spelled histograms --------------------
+    spelled = run_audit(chk, corpus)
+    slines = []
+    for inp in spelled:
+        c = floatcurve(inp["curve"])
+        snf, _ = build(c)
+        hist = " ".join(fbits(a) + " " + fbits(b) for a, b in zip(inp["srange"], inp["count"]))
+        slines.append("sn.minersum %s %s %s %s %s" % (curve_tokens(c, snf), fbits(inp["td"]), fbits(inp["scf"]),
+                                                       "-" if inp["th"] is None else fbits(inp["th"]), hist))
+    for inp, o in zip(spelled, drv.run(slines)):
+        chk.count("sn.minersum-spelled")
+        try:
+            sn, _ = build(inp["curve"])
+            a_s, _ = as_container(inp["srange"], inp["container"])
+            a_c, _ = as_container(inp["count"], inp["container_count"])
+            d = float(minersum(a_s, a_c, sn, td=as_scalar(inp["td"], inp["scalar"]), scf=as_scalar(inp["scf"], inp["scalar"]),
+                               th=as_scalar(inp["th"], inp["scalar"])))
+        except Exception as e:      # noqa
+            d = "err " + type(e).__name__
+        if not close(val(o), d, 1e-9):
+            chk.disagree("sn.minersum", inp, val(o), d)
 
 
 def replay(rp):
     from qats.fatigue.sn import minersum, minersum_weibull
     inp = rp["input"]
     bad = 0
-    if "srange" in inp:
+    if "srange" in inp and inp.get("kind") not in AUDIT_EVAL:
         sn, kw = build(inp["curve"])
         sr, cnt = inp["srange"], inp["count"]
-        d = float(minersum(sr, cnt, sn, td=inp["td"], scf=inp["scf"], th=inp["th"]))
+        ref = ref_bins(inp["curve"], sr, cnt, inp["td"], inp["scf"], inp["th"])
+        try:
+            d = float(minersum(sr, cnt, sn, td=inp["td"], scf=inp["scf"], th=inp["th"]))
+            bins = [float(b) for b in minersum(sr, cnt, sn, td=inp["td"], scf=inp["scf"], th=inp["th"], retbins=True)[1]]
+        except Exception as e:      # noqa
+            print("FAILS: minersum must not raise for a valid histogram: %s (expected damage %r)" % (_raised(e), sum(ref)))
+            print("replay: 1 failing clause(s)")
+            return 1
+        if not close(d, sum(ref), 1e-9) or not all(close(a, b, 1e-9) for a, b in zip(bins, ref)):
+            print("FAILS: damage per bin == td*count/N(s*scf, t) (capacity computed independently of qats): expected %r observed %r" % (ref[:4], bins[:4]))
+            bad += 1
+        k = inp.get("split")
+        if k is not None:
+            parts = sum(float(minersum(a, b, sn, td=inp["td"], scf=inp["scf"], th=inp["th"])) for a, b in ((sr[:k], cnt[:k]), (sr[k:], cnt[k:])) if len(a))
+            if not close(parts, d, 1e-11):
+                print("FAILS: additive over the split at bin %d: whole %r parts %r" % (k, d, parts))
+                bad += 1
+        lin = float(minersum(sr, [3.0 * x for x in cnt], sn, td=2.0 * inp["td"], scf=inp["scf"], th=inp["th"]))
+        if not close(lin, 6.0 * d, 1e-11):
+            print("FAILS: linear in counts and duration: expected %r observed %r" % (6.0 * d, lin))
+            bad += 1
+        for text, e_, o_ in shared_dict_clauses(minersum, sn, kw, sr, cnt, inp["td"], inp["scf"], inp["th"], d):
+            print("FAILS: %s: expected %r observed %r" % (text, e_, o_))
+            bad += 1
         exp = sum(inp["td"] * k / float(sn.n(s * inp["scf"], t=inp["th"])) for s, k in zip(sr, cnt))
         print("minersum =", d, " sum of td*count/N =", exp)
         if not close(d, exp, 1e-11):
@@ -333,7 +1035,7 @@ def replay(rp):
         for text, label, e_, o_ in check_forms(minersum, sn, kw, sr, cnt, inp["td"], inp["scf"], inp["th"], inp.get("th_via", "args"), d):
             print("FAILS: %s [sn given as %s]: expected %r observed %r" % (text, label, e_, o_))
             bad += 1
-    elif "q" in inp:
+    elif "q" in inp and inp.get("kind") not in AUDIT_EVAL:
         sn, kw = build(inp["curve"])
         d = float(minersum_weibull(inp["q"], inp["h"], sn, inp["v0"], td=inp["td"], scf=inp["scf"], th=inp["th"]))
         tdv = 3600. * 24 * 365 if inp["td"] is None else inp["td"]
@@ -348,5 +1050,28 @@ def replay(rp):
         for text, e_, o_ in weibull_clauses(minersum_weibull, sn, kw, q, h, inp["v0"], inp["td"], tdv, inp["scf"], inp["th"], d):
             print("FAILS: %s: expected %r observed %r" % (text, e_, o_))
             bad += 1
+    elif inp.get("kind") in AUDIT_EVAL:
+        one = dict(inp)
+        step = one.pop("step", None)
+        for r in AUDIT_EVAL[inp["kind"]](one):
+            tie = (inp["kind"] in ("history", "wspell")) and r[-1]
+            where = " [step %d: %r]" % (r[1], one["steps"][r[1]] if 0 <= r[1] < len(one["steps"]) else None) if inp["kind"] == "history" else ""
+            e_, o_ = (r[2], r[3]) if inp["kind"] == "history" else (r[1], r[2])
+            print("%s: %s%s: expected %r observed %r" % ("MODEL/IMPLEMENTATION DIFFER" if tie else "FAILS", r[0], where, e_, o_))
+            bad += 0 if tie else 1
+    elif inp.get("kind") == "gh-signal":
+        skip, res = eval_gh_signal(inp)
+        for text, e_, o_ in res:
+            print("FAILS: %s: expected %r observed %r" % (text, e_, o_))
+            bad += 1
+    elif "cycles" in inp:
+        # tables of the first Goodman-Haigh streams (float / integer-valued): all clauses through the audit evaluator
+        rows = [list(r) for r in inp["cycles"]]
+        whole = all(float(v).is_integer() for r in rows for v in r)
+        for cont in ("ndarray", "list-of-lists") + (("int-ndarray",) if whole else ()):
+            for text, e_, o_ in eval_gh(dict(kind="gh", cycles=rows, uts=inp["uts"], uts2=None, container=cont,
+                                             uts_as="int" if cont == "int-ndarray" else "py", units=[1000.0])):
+                print("FAILS: %s [table as %s]: expected %r observed %r" % (text, cont, e_, o_))
+                bad += 1
     print("replay: %d failing clause(s)" % bad)
     return 1 if bad else 0
